@@ -495,11 +495,20 @@ func (o Otto) ContextSkip(limit int, skipNative bool) Context {
 					// Reading a binding of a with-object or of the global object can
 					// run a getter, which can throw: such a symbol is left undefined.
 					var value Value
-					if err := catchPanic(func() {
+					func() {
+						defer func() {
+							if o.runtime.halting {
+								// Panic from an interrupt function, let it propagate.
+								return
+							}
+							if caught := recover(); caught != nil {
+								if err := catchPanic(func() { panic(caught) }); err != nil {
+									value = Value{}
+								}
+							}
+						}()
 						value = stash.getBinding(name, true)
-					}); err != nil {
-						value = Value{}
-					}
+					}()
 					ctx.Symbols[name] = value
 				}
 			}
